@@ -8,7 +8,7 @@ the intersection of the open half-planes of the edges, which *is* the interior e
 polygon is convex (`Spec.Route.Convex`); the clipping theorems need no convexity hypothesis.
 -/
 import AdaptaVerif.Lemmas.RouteGeom
-import AdaptaVerif.Lemmas.VisSoundRect
+import AdaptaVerif.Lemmas.VisSoundConvex
 import AdaptaVerif.Model.Visibility
 namespace AdaptaVerif.Props.C03
 open AdaptaVerif.Model.Geometry (Pt area2)
@@ -144,7 +144,10 @@ Proved below:
 * `visible_sound_boundaryChar_partial` — for every shape whose edge list has the boundary
   characterisation `BoundaryChar` (a point on an edge line and on the inner side of all edges lies on that
   closed edge; every edge starts where another ends).  This is the whole geometric argument; what is
-  missing for arbitrary convex n-gons is only the derivation of `BoundaryChar` from convexity.
+  `visible_sound_partial` instantiates it for every strictly convex counter-clockwise polygon (every
+  corner a strict left turn, `ConvexCycle`), any number of vertices; its conclusion speaks about the
+  counter-clockwise interior (`InsideOriented 1`, resp. `segHitsOriented 1 0`), because excluding a
+  clockwise interior for such a polygon needs a global argument that is not proved.
 * `visible_sound_rect_partial` — for axis-parallel rectangles (`BoundaryChar` proved), with the conclusion
   in terms of the C03 checker `segHitsInterior`.
 Interior-disjointness of the shapes is not needed (the argument is per shape). -/
@@ -220,5 +223,66 @@ example : segHitsInterior witnessRect (⟨0, 0⟩ : Pt) ⟨3, 0⟩ = false := by
     simp only [lerp, sub_self, mul_zero, add_zero] at hy
     simp only [List.getElem_cons_zero, witnessRect, rectPoly, List.mem_cons, List.not_mem_nil, or_false] at hv
     rcases hv with rfl | rfl | rfl | rfl <;> simp at hy
+
+
+open AdaptaVerif.Lemmas.VisSound in
+/-- The design's `visible_sound_partial` for strictly convex counter-clockwise polygons of any size:
+    if the naive test calls i–j visible then no point of the segment is strictly inside a non-exempt shape
+    — provided no vertex of that shape lies in the open segment and neither end is strictly inside it.
+    (`_partial`: the conclusion is about the counter-clockwise interior; see the note above.) -/
+theorem visible_sound_partial (ign : Bool) (shapes : List Poly) (i j : VVert)
+    (hvis : visible ign shapes i j = true) (k : Nat) (hk : k < shapes.length) (hex : k ∉ exempt i j)
+    (hlen : 3 ≤ shapes[k].length) (hC : ConvexCycle (polyEdges shapes[k]))
+    (ha : ¬ InsideOriented 1 0 shapes[k] i.pt) (hb : ¬ InsideOriented 1 0 shapes[k] j.pt)
+    (hnov : ∀ v ∈ shapes[k], ∀ t : Rat, 0 < t → t < 1 → lerp i.pt j.pt t ≠ v) :
+    segHitsOriented 1 0 shapes[k] i.pt j.pt = false := by
+  have hmem := edges_mem_iff shapes[k]
+  have hB : BoundaryChar (AdaptaVerif.Model.Geometry.edges shapes[k]) :=
+    boundaryChar_congr _ _ (fun e => (hmem e).symm) (boundaryChar_of_convexCycle _ hC)
+  have inside_iff : ∀ p : Pt, InsideOriented 1 0 shapes[k] p ↔
+      ∀ e ∈ AdaptaVerif.Model.Geometry.edges shapes[k], 0 < F e p := by
+    intro p
+    unfold InsideOriented F
+    simp only [zero_mul, one_mul]
+    constructor
+    · rintro ⟨_, h⟩ e he; exact h e ((hmem e).mp he)
+    · intro h; exact ⟨hlen, fun e he => h e ((hmem e).mpr he)⟩
+  have notin : ∀ p : Pt, ¬ InsideOriented 1 0 shapes[k] p →
+      ∃ e ∈ AdaptaVerif.Model.Geometry.edges shapes[k], F e p ≤ 0 := by
+    intro p hp
+    by_contra hne
+    apply hp
+    rw [inside_iff]
+    intro e he
+    by_contra hle
+    exact hne ⟨e, he, not_lt.mp hle⟩
+  have hgen := visible_sound_boundaryChar_partial ign shapes i j hvis k hk hex hB (notin _ ha) (notin _ hb)
+    (by
+      intro e he t ht0 ht1
+      have hv := polyEdges_mem_vertices shapes[k] e ((hmem e).mp he)
+      exact ⟨hnov _ hv.1 t ht0 ht1, hnov _ hv.2 t ht0 ht1⟩)
+  cases hs : segHitsOriented 1 0 shapes[k] i.pt j.pt with
+  | false => rfl
+  | true =>
+    exfalso
+    obtain ⟨t, h0, h1, hin⟩ := (segHitsOriented_iff 1 0 _ _ _).mp hs
+    exact hgen ⟨t, h0, h1, (inside_iff _).mp hin⟩
+
+-- non-vacuity of `ConvexCycle`: a triangle
+open AdaptaVerif.Lemmas.VisSound in
+example : ConvexCycle (polyEdges [(⟨0, 0⟩ : Pt), ⟨4, 0⟩, ⟨0, 3⟩]) := by
+  refine ⟨?_, ?_, ?_⟩ <;> intro e he <;>
+    simp only [polyEdges, List.cons_append, List.nil_append, List.zip_cons_cons, List.zip_nil_right,
+      List.mem_cons, List.not_mem_nil, or_false] at he <;>
+    rcases he with rfl | rfl | rfl
+  · decide +kernel
+  · decide +kernel
+  · decide +kernel
+  · exact ⟨(⟨4, 0⟩, ⟨0, 3⟩), by simp [polyEdges], rfl, by decide +kernel⟩
+  · exact ⟨(⟨0, 3⟩, ⟨0, 0⟩), by simp [polyEdges], rfl, by decide +kernel⟩
+  · exact ⟨(⟨0, 0⟩, ⟨4, 0⟩), by simp [polyEdges], rfl, by decide +kernel⟩
+  · exact ⟨(⟨0, 3⟩, ⟨0, 0⟩), by simp [polyEdges], rfl, by decide +kernel⟩
+  · exact ⟨(⟨0, 0⟩, ⟨4, 0⟩), by simp [polyEdges], rfl, by decide +kernel⟩
+  · exact ⟨(⟨4, 0⟩, ⟨0, 3⟩), by simp [polyEdges], rfl, by decide +kernel⟩
 
 end AdaptaVerif.Props.C03
